@@ -536,10 +536,10 @@ impl XType {
             Self::Compound(ct, spec, original_bind) => {
                 let mut new_bind = Bind::default();
                 for gen_name in spec.generic_names.iter(){
-                    new_bind.bound_generics.insert(*gen_name, 
-                        original_bind.get(gen_name)
-                        .unwrap() // todo is this safe?
-                        .resolve_bind(bind, tail));
+                    // (a compound built by a variant constructor binds only the parameters its payload mentions)
+                    if let Some(bound) = original_bind.get(gen_name) {
+                        new_bind.bound_generics.insert(*gen_name, bound.resolve_bind(bind, tail));
+                    }
                 }
                 Self::Compound(*ct, spec.clone(), new_bind).into()
             },
